@@ -603,6 +603,8 @@ type oC15 struct {
 	addErr  []string
 	rowHops map[string]int // HQ/LQ row id -> hops the queue stored
 	rowVia  map[string]string
+	// local queue: rows handed out and not yet deleted, by URL text
+	outstanding map[string]map[string]bool // value -> row ids
 }
 
 func (o *oC15) Name() string { return "C15" }
@@ -643,6 +645,38 @@ func (o *oC15) OnEvent(k *Kernel, ev *Event) {
 		}
 	case "lq.prod.add.error":
 		o.addErr = append(o.addErr, fmt.Sprint(ev.Args))
+	case "lq.sender.recv":
+		// a URL that is still in the queue (handed out, not deleted yet) must not be handed out under a second row
+		if len(ev.raw) > 0 {
+			if u, ok := ev.raw[0].(*sqlc_model.Url); ok && u != nil {
+				if o.outstanding == nil {
+					o.outstanding = map[string]map[string]bool{}
+				}
+				if ids := o.outstanding[u.Value]; len(ids) > 0 && !ids[u.ID] {
+					k.Violate("C15", "no-duplicate", "url-handed-out-twice-while-in-queue", fmt.Sprintf("%s was handed out again (new row) while the row handed out before had not been deleted from the local queue yet", u.Value))
+				}
+				if o.outstanding[u.Value] == nil {
+					o.outstanding[u.Value] = map[string]bool{}
+				}
+				o.outstanding[u.Value][u.ID] = true
+				k.Probe("c15-lq-handouts")
+			}
+		}
+	case "lq.fin.deleted":
+		if len(ev.raw) > 1 && ev.raw[1] == nil {
+			if us, ok := ev.raw[0].([]sqlc_model.Url); ok {
+				for _, u := range us {
+					for v, ids := range o.outstanding {
+						if ids[u.ID] {
+							delete(ids, u.ID)
+							if len(ids) == 0 {
+								delete(o.outstanding, v)
+							}
+						}
+					}
+				}
+			}
+		}
 	case "lq.fetch.got":
 		if len(ev.raw) > 0 {
 			if us, ok := ev.raw[0].([]sqlc_model.Url); ok {
